@@ -136,6 +136,7 @@ class H:
             self.yields[cid] = c.get("yields", 0)
         self.depth = False
         self.no_sender_yields = False
+        self.guard_yields = {cbid_of(g): g.get("yields", 0) for g in spec.get("guards", [])}
 
     def frame_depth(self):
         f = sys._getframe(2)
@@ -263,8 +264,12 @@ def make_guard(cbid0, kind, is_async):
 
         async def g(self, *args, machine, **kwargs):
             cbid = _resolve(cbid0, self)
-            machine.H.log.append(("G", cbid))
-            return machine.H.val.get(cbid, False)
+            Hh = machine.H
+            Hh.log.append(("G", cbid, "b"))
+            for _ in range(Hh.guard_yields.get(cbid, 0)):
+                await asyncio.sleep(0)
+            Hh.log.append(("G", cbid, "e"))  # a coroutine guard must have ended before any later phase starts
+            return Hh.val.get(cbid, False)
     else:
 
         def g(self, *args, machine, **kwargs):
